@@ -392,27 +392,39 @@ def run(ctx):
     for r in souts:
         if r["i"] in sfails:
             failures.append({"i": 10 ** 6 + r["i"], "case": r["case"], "obs": r["obs"], "fails": sfails[r["i"]]})
-    ctx.trace_records = ntraces_a + len(souts)
+    # ---------------- (c) system level: workspace lives over two paths with every tool in between (spec/OctaveSystem.tla)
+    from drivers import system
+    sys_failures, sys_records, sys_lives = system.run_system(ctx)
+    failures.extend(sys_failures)
+    ctx.trace_records = ntraces_a + len(souts) + sys_records
     nontrivial = sum(1 for it in items if any(o["base"] != "none" for o in it[2]["ops"])) + \
         sum(1 for s in sitems if len({x["w"] for x in s[2]["sched"]}) > 1)
     samples = [{"history": items[k][2], "entry": items[k][1], "observed": [e["obs"] for e in outs[k]]} for k in (5, len(items) // 2)]
     samples += [{"schedule": [(x["w"], x["s"]) for x in souts[k]["case"]["sched"]], "config": souts[k]["case"]["cfg"],
                  "model_predicts": souts[k]["case"]["res"], "observed": souts[k]["obs"]} for k in (0, len(souts) // 2)]
     return engine.report(
-        ctx, failures=failures, matchers=MATCHERS, evaluations=sum(len(o) for o in outs) + len(souts),
+        ctx, failures=failures, matchers=MATCHERS, evaluations=sum(len(o) for o in outs) + len(souts) + sys_records,
         distinct_nontrivial=nontrivial,
         rule="(a) all histories of <= MaxLen operations over {content, changes, normalize, dry, bad, ext} x {none, current, stale, "
              "future} from an absent or present file (spec/CasRegister.tla), through WriteTool.execute and (content/ext/bad only) "
              "atomic_write_octave; (b) all complete interleavings of the writers' operations on the shared target for each "
              "configuration in schedule_configs (spec/CasWriters.tla); non-trivial = history with >= 1 base_hash / schedule with a "
-             "context switch",
+             "context switch; (c) workspace lives of spec/OctaveSystem.tla over two paths (write with content / changes / dry x base_hash "
+             "none / match / stale, validate, eject, seal, normalize, external edit / removal): every 2-step life of a one-item document "
+             "and TLC-simulated lives of 7 (quick) / 11 (thorough) steps, judged step by step by spec/Trace_System.tla",
         samples=samples, exhaustive=True,
-        descr=lambda fl, clause: ("history=%s" % json.dumps(fl["case"].get("history"))[:200]) if "history" in fl["case"]
+        descr=lambda fl, clause: ("system_life=%s observed=%s" % (json.dumps(fl["case"]["system_life"], ensure_ascii=True)[-700:], json.dumps(fl["obs"].get("note", ""))[:200]))
+        if "system_life" in fl["case"] else ("history=%s" % json.dumps(fl["case"].get("history"))[:200]) if "history" in fl["case"]
         else "config=%s schedule=%s" % (fl["case"]["cfg"], [(x["w"], x["s"]) for x in fl["case"]["sched"]]),
-        assumptions=["writers are threads of one driver process, each parked by interposition at every operation on the shared "
+        assumptions=["system lives: for base_hash=match the harness hashes the bytes the file holds before the call; a refused call must "
+                     "carry E_HASH; the hash an accepted write returns must be the hash of the bytes it installed; what `octave seal -o f` / "
+                     "`octave normalize -o f` / octave_write wrote is what octave_eject(canonical) shows; Seal clauses compare verify_seal on "
+                     "the file with the specification's sealed-content flag",
+                     "writers are threads of one driver process, each parked by interposition at every operation on the shared "
                      "target path and released one at a time in the order TLC enumerated; operations on private temp files are "
                      "not scheduling points (they commute)",
                      "per the documented contract base_hash binds only an existing file",
                      "snapshots compare path, type, bytes and mode of the whole sandbox tree (timestamps excluded)"],
         extra_coverage={"schedule_configs": [c["name"] for c in cfgs], "window_found_by_TLC_in_faithful_model": window_in_model,
-                        "atomic_install_variant_clean": not r_atomic.violated, "histories": ntraces_a, "schedules": len(souts)})
+                        "atomic_install_variant_clean": not r_atomic.violated, "histories": ntraces_a, "schedules": len(souts),
+                        "system_lives": sys_lives, "system_steps": sys_records})
